@@ -50,6 +50,10 @@ CHECKS = {
                      "is an output column of a per-object query; the job's value on every decided object and the booked column type class must agree with Python. Exhaustive over the table, "
                      "sampled over values.",
                 note="conditional / Min / Max / ** columns may be floating (as C03 and C13 word it); rows with zero divisors, complex or huge results are UNSPEC", ref="4/C13"),
+    "C12": dict(cat="exploration", technique="documented function table executed as columns of sanitized generated jobs and compared with the C library symbol of the same name (ctypes)",
+                text="The README's math-function list is parsed and cross-checked with the translator's table; every function is evaluated by a compiled job standalone, inside arithmetic "
+                     "(f+1, 2*f, f/2, g(f), f*member), and with literal arguments, at argument values from event data inside its domain; values must agree with libm to 1e-9.",
+                note="exhaustive over the documented list, sampled over argument values; 'namesake' = libm symbol (ln = log)", ref="4/C12"),
 }
 
 PENDING_REASON = "check not built yet at this commit (work in progress, see DESIGN.md section 4)"
